@@ -426,6 +426,7 @@ class List(list, base.Symbolic, pg_typing.CustomTyping):
         # Detach old value from object tree.
         if isinstance(old_value, base.TopologyAware):
           old_value.sym_setparent(None)
+          old_value.sym_setpath(utils.KeyPath())
     else:
       super().append(new_value)
     return base.FieldUpdate(
